@@ -129,6 +129,9 @@ func firstLines(s string, n int) string {
 
 func solveAll(obls []*Obligation, dir string, timeout, workers int) []*SolveResult {
 	os.MkdirAll(dir, 0755)
+	for _, o := range obls {
+		o.Script.index()
+	}
 	out := make([]*SolveResult, len(obls))
 	var wg sync.WaitGroup
 	sem := make(chan struct{}, workers)
